@@ -145,23 +145,29 @@ def eliminate_returns(stmts: list, res: str) -> Optional[list]:
         if isinstance(st, ast.Try) and _has(st, ast.Return):
             if st.finalbody or st.orelse:
                 return None
-            nb = eliminate_returns(st.body + ([] if body_exits(st.body) == "return" else []), res)
-            if nb is None:
-                return None
-            hs = []
             falls = body_exits(st.body) != "return"
+            if _has(st.body, ast.Return):
+                if falls:
+                    return None          # a return in the middle of a protected block that can also fall through
+                nb = eliminate_returns(st.body, res)
+                if nb is None:
+                    return None
+            else:
+                nb = list(st.body)
+            hs = []
             for h in st.handlers:
                 h_ret = body_exits(h.body) == "return"
-                nh = eliminate_returns(h.body + ([] if h_ret else rest), res)
+                nh = eliminate_returns(h.body + ([] if h_ret else copy.deepcopy(rest)), res)
                 if nh is None:
                     return None
                 hs.append(ast.copy_location(ast.ExceptHandler(type=h.type, name=h.name, body=nh or [ast.Pass()]), h))
-            out.append(ast.copy_location(ast.Try(body=nb, handlers=hs, orelse=[], finalbody=[]), st))
+            orelse = []
             if falls:
-                r2 = eliminate_returns(rest, res)
-                if r2 is None:
+                # what follows the try runs only when the protected block completed (a handler that returned does not reach it)
+                orelse = eliminate_returns(rest, res)
+                if orelse is None:
                     return None
-                out.extend(r2)
+            out.append(ast.copy_location(ast.Try(body=nb, handlers=hs, orelse=orelse, finalbody=[]), st))
             return out
         if isinstance(st, ast.With) and _has(st, ast.Return):
             nb = eliminate_returns(st.body + ([] if body_exits(st.body) == "return" else []), res)
@@ -169,8 +175,26 @@ def eliminate_returns(stmts: list, res: str) -> Optional[list]:
                 return None
             out.append(ast.copy_location(ast.With(items=st.items, body=nb), st))
             return out
+        if isinstance(st, ast.Match) and _has(st, ast.Return):
+            cases = []
+            for c in st.cases:
+                c_ret = body_exits(c.body) == "return"
+                nb = eliminate_returns(c.body + ([] if c_ret else rest), res)
+                if nb is None:
+                    return None
+                cases.append(ast.match_case(pattern=c.pattern, guard=c.guard, body=nb or [ast.Pass()]))
+            exhaustive = any(isinstance(c.pattern, ast.MatchAs) and c.pattern.pattern is None and c.guard is None for c in st.cases)
+            if not exhaustive:
+                nr = eliminate_returns(rest, res)
+                if nr is None:
+                    return None
+                cases.append(ast.match_case(pattern=ast.MatchAs(pattern=None, name=None), guard=None, body=nr or [ast.Pass()]))
+            out.append(ast.copy_location(ast.Match(subject=st.subject, cases=cases), st))
+            return out
         if isinstance(st, (ast.For, ast.While)) and _has(st, ast.Return):
             return None
+        if not isinstance(st, (ast.FunctionDef, ast.ClassDef, ast.Lambda)) and _has(st, ast.Return):
+            return None          # a statement kind whose returns this rewriting does not understand
         out.append(st)
     # fell off the end: implicit None
     out.append(ast.Assign(targets=[ast.Name(id=res, ctx=ast.Store())], value=ast.Constant(value=None), lineno=getattr(stmts[-1], "lineno", 0) if stmts else 0))
